@@ -49,6 +49,7 @@ type State struct {
 	recovered bool
 	depth    int
 	caseLit  *Term
+	ghostOther bool // a hypothetical non-ErrNaN panic is in flight (handler check)
 }
 
 func (s *State) clone() *State {
@@ -66,6 +67,7 @@ func (s *State) clone() *State {
 		panicVal: s.panicVal,
 		recovered: s.recovered,
 		depth:   s.depth,
+		ghostOther: s.ghostOther,
 	}
 	for k, v := range s.cells {
 		n.cells[k] = v
